@@ -20,6 +20,11 @@ pub fn malformed_events() -> Vec<Event> {
         Event::malformed("non-UTF-8 text after new child", b"<r><c/>\xff</r>"),
         Event::malformed("unclosed comment", b"<r><!--</r>"),
         Event::malformed("unquoted attribute", b"<r><a x=1/></r>"),
+        // the defect sits behind a complete root element
+        Event::malformed("stray end tag behind the root", b"<r><c/></r></x>"),
+        Event::malformed("unclosed comment behind the root", b"<r><a z=\"1\"/></r>\n<!-- tail"),
+        Event::malformed("non-UTF-8 bytes behind the root", b"<r><c/></r>\xff"),
+        Event::malformed("broken second element behind the root", b"<r/><a x=\"1\" x=\"2\"/>"),
     ]
 }
 
@@ -144,7 +149,7 @@ fn judge_transition(t: &Transition, table: Option<&OrderTable>) -> Vec<Violation
 
 pub fn run(ctx: &Ctx) {
     ctx.set("exhaustive", json!(true));
-    let searches: Vec<(usize, usize)> = ctx.tier.pick(vec![(2, 4), (3, 1)], vec![(2, 8), (3, 3)]);
+    let searches: Vec<(usize, usize)> = ctx.tier.pick(vec![(2, 4), (3, 1)], vec![(2, 6), (3, 2)]);
     let mut malformed_seen = 0u64;
     for (aw, depth) in searches {
         let alphabet = materialise(history_cfg(aw));
@@ -161,7 +166,7 @@ pub fn run(ctx: &Ctx) {
             init_docs: &alphabet,
             events: &events,
             depth,
-            state_cap: ctx.tier.pick(400_000, 3_000_000),
+            state_cap: ctx.tier.pick(400_000, 1_500_000),
             audit_cap: ctx.tier.pick(2_000, 20_000),
             judge_init: &judge_i,
             judge: &judge_t,
@@ -197,7 +202,7 @@ pub fn run(ctx: &Ctx) {
     ctx.set("malformed_event_kinds", json!(malformed_seen));
     ctx.set(
         "rule",
-        json!("breadth-first search over extend_struct from into_struct(d) for every d of the alphabet; events = every document of the alphabet, four element-less inputs and eight malformed inputs. Checked on every transition: schema of the successor = reference schema of the set of documents supplied (batch equivalence, tree and rendering); successor admits predecessor (no field lost, no Option->required, no Vec->single); re-supplying a document changes nothing; element-less inputs leave tree and bytes unchanged; one schema per multiset of documents whatever the order (table keyed by the multiset); malformed inputs return Err"),
+        json!("breadth-first search over extend_struct from into_struct(d) for every d of the alphabet; events = every document of the alphabet, four element-less inputs and twelve malformed inputs (four of them with the defect behind a complete root element). Checked on every transition: schema of the successor = reference schema of the set of documents supplied (batch equivalence, tree and rendering); successor admits predecessor (no field lost, no Option->required, no Vec->single); re-supplying a document changes nothing; element-less inputs leave tree and bytes unchanged; one schema per multiset of documents whatever the order (table keyed by the multiset); malformed inputs return Err"),
     );
 }
 
